@@ -2,7 +2,6 @@ package c19
 
 import (
 	"fmt"
-	"os"
 	"strings"
 	"sync"
 
@@ -59,7 +58,16 @@ type EncCase struct {
 	Form  string // the enclosing form the list is a direct child of
 	Outer string // "" or a second form around the first (expression forms only)
 	Paren bool
+	// NUser only: where the defun of N stands ("" = top level, progn, let, fn =
+	// inside another function that is called first, cond) and what its body is
+	// ("" = a probe, empty, doc-only, doc+probe).  defun always defines the
+	// name globally, wherever it is evaluated.
+	DefIn string `json:",omitempty"`
+	Body  string `json:",omitempty"`
 }
+
+var encDefIns = []string{"progn", "let", "fn", "cond"}
+var encBodies = []string{"empty", "doc-only", "doc+probe"}
 
 type encForm struct {
 	Pre    []string
@@ -237,6 +245,12 @@ func genEnclose() *rapid.Generator[EncCase] {
 			c.N = rapid.SampledFrom(userNames).Draw(t, "n")
 			c.NSig = genSig(t, true)
 			sig = c.NSig
+			if rapid.IntRange(0, 2).Draw(t, "defnested") == 0 {
+				c.DefIn = rapid.SampledFrom(encDefIns).Draw(t, "defin")
+			}
+			if rapid.IntRange(0, 2).Draw(t, "bodykind") == 0 {
+				c.Body = rapid.SampledFrom(encBodies).Draw(t, "body")
+			}
 		} else {
 			c.N = pick(t, encHeads, "n")
 			sig = regMap[c.N].Sig
@@ -302,7 +316,34 @@ func buildEnclose(c EncCase) (p *Program, bad string) {
 		}
 	}
 	if c.NUser {
-		p.Forms = append(p.Forms, defunNode("defun", c.N, c.NSig, P(`(probe "orig")`, nil)))
+		var body []*Node
+		switch c.Body {
+		case "":
+			body = []*Node{P(`(probe "orig")`, nil)}
+		case "empty":
+		case "doc-only":
+			body = []*Node{A(`"doc"`)}
+		case "doc+probe":
+			body = []*Node{A(`"doc"`), P(`(probe "orig")`, nil)}
+		default:
+			return nil, "unknown body kind " + c.Body
+		}
+		d := map[string]*Node{"D": defunNode("defun", c.N, c.NSig, body...)}
+		switch c.DefIn {
+		case "":
+			add(`%D`, d)
+		case "progn":
+			add(`(progn %D)`, d)
+		case "let":
+			add(`(let ([q9 1]) %D)`, d)
+		case "fn":
+			add(`(defun mk9 () %D)`, d)
+			add(`(mk9)`, nil)
+		case "cond":
+			add(`(cond (true %D))`, d)
+		default:
+			return nil, "unknown definition place " + c.DefIn
+		}
 	}
 	for _, s := range f.Pre {
 		add(s, nil)
@@ -370,52 +411,6 @@ func encReaches(form, outer string) string {
 	return verdict
 }
 
-// ---------- findings of the UNCHANGED tree that are not registered yet ----------
-//
-// Keys this sub-property produces on the unchanged /repo (each one triaged as a
-// genuine disagreement with the property's statement, see NOTES.md "Findings
-// of round 6").  Until they are repaired or entered into known_findings.json
-// the oracle counts a hit under skip/pending-finding:<key> and lets the search
-// continue; every OTHER key of the same form still fails.  A replay (ctx.Replay)
-// and C19_NO_PENDING=1 disable the suppression, so the stored replays under
-// harness/c19/pending_findings keep reproducing.
-var pendingHead = func() map[string]bool {
-	m := map[string]bool{}
-	// R6-1: nothing inside a quasiquote template is walked, so a call in an
-	// unquote is never checked
-	for _, who := range []string{"core", "user"} {
-		for _, form := range []string{"quasi-unquote", "quasi-unquote-splicing"} {
-			m["arity/enclose/"+who+"/"+form+"/missed"] = true
-			m["arity/enclose/"+who+"/"+form+"/missed/bare-symbol-args"] = true
-		}
-	}
-	// R6-2: if-arity counts the written arguments of an if that is a threaded
-	// child of thread-first / thread-last (the other two analyzers skip those)
-	for _, form := range []string{"thread-first-child1", "thread-first-child2", "thread-first-child-mid", "thread-last-child1", "thread-last-child2", "thread-last-child-mid"} {
-		m["arity/enclose/core/"+form+"/false-positive/if-arity"] = true
-	}
-	// R6-3: a call to a defun-defined function whose arguments are all bare
-	// symbols, standing as a non-last child of a def*-headed form with four or
-	// more elements, is taken for a parameter list by the semantic analysis;
-	// user-arity then exempts the function in the whole file
-	for _, form := range []string{"defconst-value-doc", "defconst-value-doc2", "defuser-value-doc", "defuser-value-first"} {
-		m["arity/enclose/user/"+form+"/missed/bare-symbol-args"] = true
-	}
-	// R6-4: call-shaped lists that are not calls are reported
-	for _, form := range []string{"quote-form", "quote-form-nested", "quoted-nested", "cond-clause", "cond-clause-second", "formals-deftype"} {
-		m["arity/non-call-reported/"+form] = true
-	}
-	return m
-}()
-
-func pending(ctx *vcommon.Ctx, f *vcommon.Failure) *vcommon.Failure {
-	if f == nil || ctx == nil || ctx.Replay || !pendingHead[f.Key] || os.Getenv("C19_NO_PENDING") != "" {
-		return f
-	}
-	ctx.Class("skip/pending-finding:" + f.Key)
-	return nil
-}
-
 func checkEnclose(c EncCase, ctx *vcommon.Ctx) *vcommon.Failure {
 	registry()
 	f, ok := encForms[c.Form]
@@ -478,7 +473,7 @@ func checkEnclose(c EncCase, ctx *vcommon.Ctx) *vcommon.Failure {
 				// registered: if-arity fires on every list headed by if, bound or not
 				key = "arity/if-arity/ignores-shadowing"
 			}
-			return pending(ctx, vcommon.Failf(key, "the list at %d:%d is %s, not a call, and the program runs cleanly (%s), yet an arity check reports: %v\n%s", line, col, nonCallWhat(kind), r, ds, src))
+			return vcommon.Failf(key, "the list at %d:%d is %s, not a call, and the program runs cleanly (%s), yet an arity check reports: %v\n%s", line, col, nonCallWhat(kind), r, ds, src)
 		}
 		return nil
 	}
@@ -509,13 +504,17 @@ func checkEnclose(c EncCase, ctx *vcommon.Ctx) *vcommon.Failure {
 	if want != direct {
 		return vcommon.Failf("binder/model-disagree/enclose", "the documented grammar predicts %q for %s%s, the evaluator gives %q:\n%s%s", pred, c.N, sig, direct, src, r)
 	}
-	if direct == "" && c.NUser && tagIndex(r.Trace, "orig", 0) < 0 {
+	if direct == "" && c.NUser && (c.Body == "" || c.Body == "doc+probe") && tagIndex(r.Trace, "orig", 0) < 0 {
 		return vcommon.Failf("harness/unreached", "the call under test binds but its function never ran in\n%s%s", src, r)
 	}
 	if direct == "" && r.IsErr {
 		ctx.Class("later-error")
 	}
 	ctx.Class("pred:" + pred)
+	if c.NUser {
+		ctx.Class("defun-in:" + c.DefIn)
+		ctx.Class("defun-body:" + c.Body)
+	}
 	if f.Thread != 0 {
 		ctx.Class("threaded")
 	}
@@ -553,13 +552,25 @@ func checkEnclose(c EncCase, ctx *vcommon.Ctx) *vcommon.Failure {
 	case f.Thread != 0:
 		// not a direct call with k argument expressions: nothing more is demanded
 	case !reported && ((direct != "" && !sig.HasKey()) || direct == bindCount):
-		main = vcommon.Failf(base+"/missed"+suffix, "the call fails argument binding, but the linter accepts it:%s", desc)
+		key := base + "/missed" + suffix
+		if c.NUser && c.DefIn != "" && !ctx.Known(key) {
+			// one key per place of the DEFINITION (unless the call's own
+			// surroundings are a registered finding already): where the call
+			// stands does not matter when the linter does not know the function
+			key = "arity/user/nested-defun/" + c.DefIn + "/missed"
+		}
+		main = vcommon.Failf(key, "the call fails argument binding, but the linter accepts it:%s", desc)
 	}
 	var strayF *vcommon.Failure
 	if len(stray) > 0 {
 		strayF = vcommon.Failf("arity/stray/"+analyzersOf(stray)+"/enclose/"+parent, "diagnostic on a form that is not the call under test (every other call in the program is valid) in\n%s%v", src, stray)
 	}
-	main, strayF = pending(ctx, main), pending(ctx, strayF)
+	// a registered finding must not hide a new one in the same case
+	for _, f := range []*vcommon.Failure{main, strayF} {
+		if f != nil && !ctx.Known(f.Key) {
+			return f
+		}
+	}
 	if main != nil {
 		return main
 	}
